@@ -588,8 +588,9 @@ def ref_third(apid: int, user: bytes):
         else:
             items.append(("CC", "Float", cc + 0.5, cc))
         sp = b.u(8)
-        assert 0 <= sp <= 20 and sp != 10, "reference: SP outside the spline or on its step"
-        items.append(("SP", "Float", float(sp) if sp < 10 else 20.0 + (sp - 10) * 1.0, sp))
+        assert 0 <= sp <= 30 and sp not in (10, 20), "reference: SP outside the spline or on one of its steps"
+        # points in document order: (0,0) (10,10) | (10,20) (20,30) | (20,25) (30,35): a step up at 10, a step down at 20
+        items.append(("SP", "Float", float(sp) if sp < 10 else (20.0 + (sp - 10) * 1.0 if sp < 20 else 25.0 + (sp - 20) * 1.0), sp))
         raw = b.bytes_right(64)
         i = next((j for j in range(0, 8, 2) if raw[j:j + 2] == b"!\x00"), None)
         assert i is not None, "reference: STR without terminator"
@@ -614,6 +615,7 @@ def third_cases():
         ("first context (one comparison) and second context (two comparisons) both hold: document order decides", 200, B(7, 1, 10, 5, "HI")),
         ("only the second context holds", 250, B(5, 2, 10, 15, "A")),
         ("no context holds: default calibrator", 299, B(4, 2, 10, 19, "")),
+        ("spline beyond its step down (two points share raw 20, the second has the lower value)", 201, B(0, 0, 3, 25, "Z")),
         ("contradictory equalities on one parameter never match (ID=1)", 300, bytes([1, 0, 5])),
         ("contradictory equalities on one parameter never match (ID=2)", 301, bytes([2, 0, 5])),
         ("zero-padded literal 010 is decimal ten (ID=10)", 300, bytes([10, 0, 0x5A])),
